@@ -105,6 +105,12 @@ func checkC15(c HistoryCase, r *rec.Rec) error {
 					perr = rec.Violated("after %v the diff no longer applies to a: %s", "earlier calls", okWord(res))
 					return
 				}
+				if bv, err := val.Parse(c.B); jdx.IsMerge(c.Opts) && err == nil && val.HasNull(bv) {
+					// a null member of b means "delete" to a merge patch: the
+					// round trip is not claimed there, only purity is
+					out = "applied"
+					return
+				}
 				if !res.Node.Equals(jdx.NodeText(c.B), opts...) {
 					perr = rec.Violated("the diff now turns a into %s instead of b = %s", res.Node.Json(), c.B)
 					return
@@ -203,6 +209,15 @@ func genC15(t *rapid.T) HistoryCase {
 			p.MaxObj = 5
 		}
 	})
+	if jdx.IsMerge(pc.Opts) && gen.Chance(t, "nullMembers", 35) {
+		// purity does not need null-free documents: b gains objects that hold nulls
+		if bo, ok := val.MustParse(pc.B).(map[string]val.V); ok {
+			bo[gen.Pick(t, "nullHolderKey", []string{"n", "a", "zz"})] = gen.Pick(t, "nullHolder", []val.V{
+				map[string]val.V{"x": nil, "y": 2.0}, map[string]val.V{"p": map[string]val.V{"q": nil}}, nil, []val.V{nil, map[string]val.V{"x": nil}},
+			})
+			pc.B = val.JSON(bo)
+		}
+	}
 	n := gen.Int(t, "nOps", 1, 12)
 	ops := make([]string, n)
 	noColor := hasLongString(val.MustParse(pc.A), 3000)
@@ -367,9 +382,23 @@ func genC15Det(t *rapid.T) DetCase {
 			return o
 		}
 		a, b := mk(), mk()
-		if gen.Chance(t, "nested", 40) {
-			a = map[string]val.V{"x": a}
-			b = []val.V{b}
+		if gen.Chance(t, "nested", 60) {
+			wrap := func(v val.V) val.V {
+				switch gen.Int(t, "nlkWrap", 0, 5) {
+				case 0:
+					return map[string]val.V{"x": v}
+				case 1:
+					return []val.V{v}
+				case 2:
+					return []val.V{[]val.V{v}}
+				case 3:
+					return map[string]val.V{"x": []val.V{1.0, []val.V{[]val.V{v, 2.0}}}}
+				case 4:
+					return []val.V{[]val.V{}, []val.V{[]val.V{v}}, map[string]val.V{"y": []val.V{[]val.V{v}}}}
+				}
+				return []val.V{map[string]val.V{"x": []val.V{v}}}
+			}
+			a, b = wrap(a), wrap(b)
 		}
 		return DetCase{A: val.JSON(a), B: val.JSON(b), Opts: "list"}
 	}
